@@ -64,7 +64,7 @@ func assumptions(id string) []string {
 // expectedProbes lists rare-branch probes that must not stay at zero.
 var expectedProbes = map[string][]string{
 	"C19": {"gen_parsed", "short_reads_delivered", "encoding_over_4096", "decode_error_returned"},
-	"C01": {"gen_parsed", "short_reads_delivered", "parse_error_located", "cut_inside_token"},
+	"C01": {"parse_tree", "short_reads_delivered", "parse_error_located", "cut_inside_token"},
 }
 
 func zeroProbes(id, tier string, got map[string]int) []string {
